@@ -10,6 +10,7 @@ import DmlcModel.Wrap.Cached
 import DmlcModel.Wrap.Threaded
 import DmlcModel.Wrap.TIterLink
 import DmlcModel.Wrap.BaseLink
+import DmlcModel.Wrap.NameLemmas
 
 namespace DmlcModel.Props.C10
 open DmlcModel DmlcModel.Wrap DmlcModel.Gen.Wrap
@@ -78,6 +79,31 @@ theorem C10_cached_transparent (cs : List Chunk) (hl : ∀ c ∈ cs, c.bytes.len
 /-- non-vacuity: a two-chunk base pass, one record read, BeforeFirst, reopened -/
 example : ∃ s, CReach [⟨[97, 10], 2⟩, ⟨[98, 10], 2⟩] s ∧ s.phase = .replay :=
   ⟨_, CReach.bf CReach.first rfl, rfl⟩
+
+/-- **Cache-file names** (`URISpec`, `uri#cachefile`): for a fixed cache prefix, distinct parts `(k, n)`,
+`(k', n')` (`k < n`, `k' < n'`; any magnitude) get distinct cache files -- so no object ever replays a file
+another part wrote. -/
+theorem C10_cache_name_injective (base : List Char) (k n k' n' : Nat) (hk : k < n) (hk' : k' < n')
+    (h : cacheName base k n = cacheName base k' n') : k = k' ∧ n = n' :=
+  cacheSuffix_injective k n k' n' hk hk' (List.append_cancel_left h)
+
+/-- ... and the name has the documented form `<cachefile>.split<n>.part<k>` (nothing for a single part), `<n>`
+and `<k>` being the full decimal renderings (`dec`: digits only, `fromDigits (dec n) = n`) -/
+theorem C10_cache_name_form (base : List Char) (k n : Nat) :
+    cacheName base k n = (if n = 1 then base else base ++ (".split".toList ++ dec n ++ ".part".toList ++ dec k)) ∧
+    fromDigits (dec n) 0 = n ∧ (∀ c ∈ dec n, c.isDigit = true) := by
+  refine ⟨?_, fromDigits_dec n, dec_digits n⟩
+  unfold cacheName cacheSuffixChars
+  by_cases h : n = 1
+  · simp [h, cacheSuffixNeeded]
+  · have e : cacheSuffixNeeded n = true := by simp [cacheSuffixNeeded, h]
+    have t1 : cacheSplitTag.toList = ".split".toList := by decide
+    have t2 : cachePartTag.toList = ".part".toList := by decide
+    simp only [e, h, if_true, if_false, t1, t2]
+
+example : String.ofList (cacheName "cc".toList 10 100) = "cc.split100.part10" := by decide
+example : dec 65536 = "65536".toList ∧ dec 0 = ['0'] := by decide
+example : cacheName "cc".toList 10 100 ≠ cacheName "cc".toList 1 100 := by decide
 
 /-- **BaseFacts — what the wrapper theorems assume about the base split, and why it holds.**  The Wrap model
 treats a pass of the base split over partition `(k, n)` as ONE chunk list `B k n` (`BasePass`; `iterParams B
